@@ -536,6 +536,7 @@ func runC12(c *Ctx) {
 	c.Rule("C12-R10", "arithmetic folding table; known value and always-returns survive only pass-through nodes", 20)
 	c12Arithmetic(c, "C12-R10")
 	c12KnownValue(c, "C12-R10")
+	c12BoolModifier(c, "C12-R10")
 
 	// ---- R3 ----
 	up := p.Pkg("internal/parser/utils")
